@@ -20,7 +20,12 @@ class Timer:
         self.expire_time = self.start_time + timeout
         self.auto_restart = auto_restart
         self.stopped = False
-        self.args = args if args is not None else []
+        if args is None:
+            args = []
+        elif not isinstance(args, (list, tuple)):
+            # a single positional argument given as a bare value
+            args = [args]
+        self.args = args
         self.kwargs = kwargs if kwargs is not None else {}
         self.proc = env.process(self.run(env))
 
@@ -46,6 +51,10 @@ class Timer:
         self.start_time = self.env.now
         self.timeout = timeout
         self.expire_time = self.start_time + timeout
-        if not self.proc.processed:
+        if self.env.active_process is self.proc:
+            # Called from the timer's own callback: run() is executing and
+            # picks up the new expire_time itself when the callback returns.
+            return
+        if self.proc.is_alive:
             self.proc.interrupt("restart timer")
             self.proc = self.env.process(self.run(self.env))
